@@ -227,9 +227,11 @@ def no_undefined_names(ctx, rule, select=lambda fi: True):
                                 names.add(x[1])
         names = sorted(names)
         n += 1
-        bad = [x for x in names if (fi.qual, x) not in UNDEF_FROZEN]
-        ctx.ob(rule, fi, not bad, "%s binds every name before it reads it on every path%s" % (fi.qual, (" (unbound: %s)" % bad) if bad else ""), key="names bound",
-               detail="; ".join(UNDEF_FROZEN[(fi.qual, x)] for x in names if (fi.qual, x) in UNDEF_FROZEN) or None)
+        # frozen by function and *number* of such locals (the table names them for the reader; a consistent renaming of a local must not matter)
+        allowed = [k for k in UNDEF_FROZEN if k[0] == fi.qual]
+        bad = names if len(names) > len(allowed) else []
+        ctx.ob(rule, fi, not bad, "%s binds every name before it reads it on every path%s" % (fi.qual, (" (unbound: %s; %d such local(s) are documented)" % (bad, len(allowed))) if bad else ""), key="names bound",
+               detail="; ".join(UNDEF_FROZEN[k] for k in allowed) or None)
     return n
 
 
